@@ -54,6 +54,8 @@ class Project(object):
             try:
                 dlist = os.listdir(pdir)
             except OSError:
+                if root and self._has_module(p, root.partition('.')[0]):
+                    break  # shadowed: python would not look any further
                 continue
 
             for name in dlist:
@@ -68,9 +70,18 @@ class Project(object):
                     if os.path.exists(os.path.join(pdir, name, '__init__.py')):
                         modules.add(name)
 
+            if root and os.path.exists(os.path.join(pdir, '__init__.py')):
+                break  # a package lives in the first path entry that has it
+
         # file names like _sysconfigdata__linux_x86_64-linux-gnu.py are not
         # importable by name
         return set(m for m in modules if IDENTIFIER.match(m))
+
+    def _has_module(self, path, name):
+        # type: (str, str) -> bool
+        mpath = os.path.join(path, name)
+        return (os.path.exists(os.path.join(mpath, '__init__.py'))
+                or any(os.path.exists(mpath + s) for s in SUFFIXES))
 
     @contextmanager
     def check_changes(self):
@@ -123,6 +134,9 @@ class Project(object):
 
             if filename:
                 break
+
+            if '.' in name and self._has_module(p, name.partition('.')[0]):
+                break  # the top package is here and has no such submodule
 
         module = None  # type: SourceModule | ImportedModule | None
         if not filename:
